@@ -474,6 +474,39 @@ pub fn run_pipeline_check(check: &str, tier: Tier, seed: u64) -> i32 {
         violations += v2;
         known_hits += k2;
         exit = exit.max(e2);
+        // C10 (a): sequential history differential (no schedule; deterministic in (seed, idx))
+        let hist_runs = std::env::var("VERIF_RUNS").ok().and_then(|s| s.parse().ok()).unwrap_or(if tier == Tier::Quick { 60_000u64 } else { 3_000_000 });
+        let case = |idx: u64| crate::histcomp::case_record(tier, seed, idx);
+        let (agg3, wall3) = batch::run_batch(hist_runs, jobs(), 4, None, &case);
+        let mut seen: Vec<String> = Vec::new();
+        for (idx, f) in &agg3.findings {
+            if seen.contains(&f.class) {
+                continue;
+            }
+            seen.push(f.class.clone());
+            // the case is a pure function of (seed, idx): the replay file names them
+            let file = ReplayFile {
+                check: "C10".into(),
+                property: "C10".into(),
+                class: f.class.clone(),
+                detail: f.detail.clone(),
+                seed,
+                case_index: *idx,
+                scenario: Scenario::empty(),
+                sched: sched_for(seed, *idx, SchedMode::Any),
+                trace: Trace::default(),
+                extra: json!({"history_differential": {"tier": tier.name()}}),
+            };
+            let path = file.write();
+            violations += 1;
+            println!("VIOLATION property=C10 replay={}", path.display());
+            println!("  class={} case={} detail={}", f.class, idx, f.detail.chars().take(900).collect::<String>());
+            if exit == 0 {
+                exit = 1;
+            }
+        }
+        merge_aggregates(&mut agg, agg3);
+        wall += wall3;
     }
     let meta = EvidenceMeta {
         property: check,
@@ -513,6 +546,21 @@ pub fn run_pipeline_check(check: &str, tier: Tier, seed: u64) -> i32 {
 pub fn replay(path: &Path) -> i32 {
     crate::hook::ensure_installed();
     let file = ReplayFile::read(path);
+    if !file.extra["history_differential"].is_null() {
+        let tier = if file.extra["history_differential"]["tier"].as_str() == Some("thorough") { Tier::Thorough } else { Tier::Quick };
+        let r = crate::histcomp::case_record(tier, file.seed, file.case_index);
+        return match r.findings.iter().find(|f| f.class == file.class) {
+            Some(f) => {
+                println!("VIOLATION property=C10 replay={} class={}", path.display(), f.class);
+                println!("  detail={}", f.detail);
+                1
+            }
+            None => {
+                println!("replay did not reproduce the violation (class={})", file.class);
+                0
+            }
+        };
+    }
     if !file.extra["state_readers"].is_null() {
         return crate::statecomp::replay(&file, path);
     }
